@@ -20,7 +20,7 @@ ok = lambda **kw: {"b": "ok", "out": kw}  # noqa: E731
 
 
 def make_program(ch: Choices, tier: str) -> Program:
-    shape = ch.choice("c15.shape", ["self", "cycle", "side", "forward"])
+    shape = ch.choice("c15.shape", ["self", "cycle", "side", "forward", "cycle", "side", "forward", "fanin"])
     mj: Any = ch.choice("c15.maxj", [None, 0, 1, 3])
     where = ch.choice("c15.mjwhere", ["wf", "stage"])
     limit = 10 if mj is None else mj
@@ -57,6 +57,18 @@ def make_program(ch: Choices, tier: str) -> Program:
             {"ref": "D", "deps": ["B2", "C"], "ctx": {}, "tasks": [ok()]},
         ]
         model.update(src="B2", loop=["B", "B2"], after=["D"], once=["A", "C"])
+    elif shape == "fanin":
+        # the fan-in lies *inside* the loop: A -> B -> D ; A -> C -> D ; D -> E ; E jumps back to B.  C is a side branch
+        # outside the re-armed set; whether D re-runs is not fixed by the property, so it is in no list
+        stages = [
+            {"ref": "A", "deps": [], "ctx": {}, "tasks": [ok(k0="s")]},
+            {"ref": "B", "deps": ["A"], "ctx": {}, "tasks": [ok(k1="s")]},
+            {"ref": "C", "deps": ["A"], "ctx": {}, "tasks": [ok(k3="s")]},
+            {"ref": "D", "deps": ["B", "C"], "ctx": {}, "tasks": [ok()]},
+            {"ref": "E", "deps": ["D"], "ctx": dict(sctx), "tasks": [{"b": "jumper", "target": "B", "n": n, "out": {"k2": "s"}}]},
+            {"ref": "Z", "deps": ["E"], "ctx": {}, "tasks": [ok()]},
+        ]
+        model.update(src="E", loop=["B", "E"], after=["Z"], once=["A", "C"])
     else:  # forward jump over a diamond: A -> B,C -> D -> E ; A jumps to E
         stages = [
             {"ref": "A", "deps": [], "ctx": dict(sctx), "tasks": [{"b": "jumper", "target": "E", "n": min(n, 1), "out": {"k0": "s"}}]},
@@ -76,10 +88,12 @@ def judge(prog: Program, ref: Any, run: dict[str, Any], info: dict[str, Any]) ->
     problems: list[tuple[str, str, str]] = []
     if not run["quiescent"]:
         problems.append(("does-not-terminate", f"loop run did not quiesce: {run['res'].aborted}", "noquiesce"))
-        return one_violation("C15", problems, h)
+        return one_violation("C15", problems, h, prog=prog)
     fs = run["fs"]
     st = {k: v["status"] for k, v in fs["stages"].items()}
     counts = run["counts"]
+    if fs["wf_status"] in ("RUNNING", "NOT_STARTED"):
+        problems.append(("does-not-terminate", f"queue drained but the workflow is {fs['wf_status']}: {st}", "stuck"))
     jumps_applied = sum(1 for r in h.audit if r["kind"] == "q_ins" and r["new"] == "StartStage" and "|JumpToStage|" in (r["ctx"] or ""))
     exp_jumps = min(n, L)
     exceeded = n > L
@@ -108,7 +122,7 @@ def judge(prog: Program, ref: Any, run: dict[str, Any], info: dict[str, Any]) ->
                 problems.append(("bypassed-stage-ran", f"stages bypassed by the forward jump executed: {ran}", "bypass-ran"))
             if counts.get(task_name("E", 0), 0) != 1:
                 problems.append(("target-run-count", f"jump target E executed {counts.get(task_name('E', 0), 0)} times", "fwd-target"))
-        return one_violation("C15", problems, h)
+        return one_violation("C15", problems, h, prog=prog)
     # backward / self loops
     iters = exp_jumps + 1            # number of times the loop body is entered
     for r in m["loop"]:
@@ -141,7 +155,7 @@ def judge(prog: Program, ref: Any, run: dict[str, Any], info: dict[str, Any]) ->
             c = counts.get(task_name(r, 0), 0)
             if c != 1:
                 problems.append(("after-loop-run-count", f"stage {r} after the loop executed {c} times", "after-count"))
-    return one_violation("C15", problems, h)
+    return one_violation("C15", problems, h, prog=prog)
 
 
 CHECK = DCheck("C15", {}, judge, make_program=make_program, need_ref=False,
